@@ -67,11 +67,11 @@ class Oracle:
         except subprocess.TimeoutExpired:
             return [('timeout', [])] * len(lines)
         out = []
-        for ln in r.stdout.decode().split('\n'):
+        for ln in r.stdout.decode('latin1').split('\n'):
             if not ln.strip(): continue
             p = ln.split()
-            if p[0] in ('ok', 'err', 'panic'):
-                out.append((p[0], [s.unhx(x) for x in p[1:]]))
+            if p[0] == '@@' and len(p) > 1 and p[1] in ('ok', 'err', 'panic'):
+                out.append((p[1], [s.unhx(x) for x in p[2:]]))
         while len(out) < len(lines):
             out.append(('crash', [r.stderr[-300:]]))
         return out
@@ -161,7 +161,9 @@ class Check:
                 results = pool.map(_run_case, args, chunksize=1)
         results.sort(key=lambda r: r['case_idx'])
         for r in results: s.absorb(r, label)
+        slow = sorted(results, key=lambda r: -r['wall_s'])[:3]
         s.obligations.append({'label': label or fn.__name__, 'cases': len(cases), 'wall_s': round(time.time() - t, 2),
+                              'slowest_cases': [(r['wall_s'], r['case']) for r in slow],
                               'paths': sum(r.get('stats', {}).get('paths', 0) for r in results)})
         return results
 
